@@ -48,7 +48,14 @@ OPS = [
     ("&&", "||"), ("||", "&&"), (" + 1", ""), (" - 1", ""), ("return true", "return false"),
     ("return false", "return true"), ("continue", "break"), ("err != nil", "false"), ("!ok", "ok"),
     (" + ", " - "), ("[:n]", "[:n-1]"), ("<<", ">>"), ("&^", "&"), (" | ", " & "),
+    # second set
+    ("if !", "if "), (" = true", " = false"), (" = false", " = true"), ("return err", "return nil"),
+    ('return fmt.Errorf("%w", err)', "return nil"), (" > ", " < "), (" < ", " > "), (" >= ", " < "), (" <= ", " > "),
+    ("== 0", "== 1"), ("!= 0", "!= 1"), (" - ", " + "), ("len(", "1+len("), ("[0]", "[1]"), ("uint32(", "uint16("),
+    ("int64(", "int32("), ("++", "--"), ("0, ", "1, "), (", 0)", ", 1)"),
 ]
+if os.environ.get("SWEEP_OPS") == "2":
+    OPS = OPS[20:]
 
 
 def outside_string(line, idx):
@@ -78,7 +85,7 @@ def candidates(path, text):
                     continue
                 out.append((n, a, b, i))
         # drop a whole simple statement
-        if re.match(r"^\s+[A-Za-z_][\w\.\[\]]*(\(.*\)|\s(=|\+=|-=|\+\+|--).*)$", code) and not s.startswith("return") and not s.endswith("{"):
+        if os.environ.get("SWEEP_OPS") != "2" and re.match(r"^\s+[A-Za-z_][\w\.\[\]]*(\(.*\)|\s(=|\+=|-=|\+\+|--).*)$", code) and not s.startswith("return") and not s.endswith("{"):
             out.append((n, "<stmt>", "", 0))
     return out
 
